@@ -86,3 +86,10 @@ Theorem C15_own_dumps_load : forall d : pv, wfp d = true -> types_default_b d = 
   exists o tr, vm_run default_world (enc_prog d) = (Done o, tr) /\ decode o = Some d.
 Proof. exact own_dumps_load. Qed.
 Print Assumptions C15_own_dumps_load.
+
+(* ... and passing safe_to_import, in any of its shapes, never stops them from loading *)
+Theorem C15_own_dumps_load_with_safe_to_import : forall (a : safe_arg) (d : pv),
+  wfp d = true -> types_default_b d = true ->
+  load (with_allow (effective_allow a) default_world) (enc_prog d) = Some d.
+Proof. exact own_dumps_load_any_safe. Qed.
+Print Assumptions C15_own_dumps_load_with_safe_to_import.
